@@ -182,6 +182,7 @@ def rule_targets(ctx):
         ("a list of extras, then none", [Lst([Const("mymod.connect"), Const("other.write_pandas")]), None]),
         ("one extra as a string, then a different one", [Const("mymod.connect"), Lst([Const("third.connect")])]),
         ("no extras, twice", [None, None]),
+        ("a tuple of extras (any Sequence[str] is accepted)", [Tup([Const("mymod.connect"), Const("other.write_pandas")])]),
         ("from-import targets under other names (app.sf_connect, app.wp)", [Lst([Const("app.sf_connect"), Const("app.wp")])]),
     ]
     n = 0
